@@ -11,6 +11,8 @@ EXPLANATION = ("ESX part (map): the real aws_hash_table under harness-chosen has
 HARNESSES = [
     dict(name="map", src=["map.c"], variant="asan", deadline={"quick": 240, "thorough": 1500}, fallback_cflags=["-DNO_WHITEBOX"]),
     dict(name="hasheq", src=["hasheq.c"], variant="asan", deadline={"quick": 120, "thorough": 300}),
+    # free-running ThreadSanitizer twin: two threads, each with objects of its own (harness/common/twin.c; samples, decides nothing)
+    dict(name="own-objects-tsan", src=["../common/twin.c"], variant="tsan", cflags=["-DTWIN_C02", "-DVSX_FREE_RUNS=6"], deadline={"quick": 60, "thorough": 120}),
 ]
 ASSUMPTIONS = [
     "key universe: key objects k0..k4, twins k0' k1' (equal to k0 / k1 under the equality function, different pointer), the NULL key; "
